@@ -255,6 +255,14 @@ func (e *env) newTokenTransfer(acct int, nonce uint64) types.Tx {
 // plain transfer, token transfer, or account -> hidden (whose AccountInput carries the account nonce).
 func (e *env) newAccountTx(acct int, nonce uint64) (types.Tx, string) {
 	switch x := e.r.Intn(100); {
+	case x < 12:
+		// a transaction that is included but whose execution FAILS (contract creation whose init code reverts):
+		// it must consume its nonce like any other executed transaction, or it can be replayed
+		tx, err := chainkit.NewContractCreation(e.g.Accounts[acct], nonce, big.NewInt(0), 200000, []byte{0x60, 0x00, 0x60, 0x00, 0xfd})
+		if err != nil {
+			panic(err)
+		}
+		return tx, "failing-creation"
 	case x < 40:
 		return e.newAin(acct, nonce), "account-to-hidden"
 	case x < 60:
@@ -471,6 +479,13 @@ func (e *env) afterCommit(b *types.Block) {
 	for o := range e.pendBy {
 		if o.Spent {
 			delete(e.pendBy, o)
+		}
+	}
+	if rs := e.A.BlockStore.GetReceipts(b.Height); rs != nil {
+		for _, rc := range *rs {
+			if rc != nil && rc.Status == types.ReceiptStatusFailed {
+				e.c.Count("committed_txs_with_failed_receipt", 1)
+			}
 		}
 	}
 	e.c.Count("blocks_committed", 1)
